@@ -87,6 +87,11 @@ pub struct HistCfg {
     /// start next to a 2^16 subtree boundary (random prior frontier + prior subtree roots), so that
     /// shards complete during the history and `put_*_subtree_roots` is exercised with true roots
     pub shard_start: bool,
+    /// NU6.3 activates this many blocks ABOVE the base height (0 = active from the start): the
+    /// retention floor and the first Ironwood commitments then fall inside the scanned chain
+    pub nu6_3_late: u32,
+    /// a pool that receives its first commitment only this many blocks above the base
+    pub late_pool: Option<(Pool, u32)>,
 }
 
 impl HistCfg {
@@ -135,6 +140,23 @@ impl HistCfg {
             tip_before_scan: false,
             dense_outputs: 0,
             shard_start: false,
+            nu6_3_late: 0,
+            late_pool: None,
+        }
+    }
+
+    pub fn base_height(&self) -> u32 {
+        100_000 + self.base_offset + if self.shard_start { 3000 } else { 0 }
+    }
+
+    /// Height at which NU6.3 (Ironwood, anchor retention) activates, if at all.
+    pub fn nu6_3_activation(&self) -> Option<u32> {
+        if !self.nu6_3 {
+            None
+        } else if self.nu6_3_late == 0 {
+            Some(100_000)
+        } else {
+            Some(self.base_height() + self.nu6_3_late)
         }
     }
 
@@ -150,7 +172,7 @@ impl HistCfg {
             nu6: act,
             nu6_1: act,
             nu6_2: act,
-            nu6_3: if self.nu6_3 { act } else { None },
+            nu6_3: self.nu6_3_activation().map(BlockHeight::from_u32),
         }
     }
 
@@ -160,7 +182,8 @@ impl HistCfg {
             "accounts": self.n_accounts, "nu6_3": self.nu6_3, "retention": self.retention,
             "initial_len": self.initial_len, "max_batch": self.max_batch,
             "out_of_order": self.out_of_order, "max_rewinds": self.max_rewinds, "steps": self.steps,
-            "spend_bias": self.spend_bias, "avoid_f1": self.avoid_f1, "shard_start": self.shard_start, "dense_outputs": self.dense_outputs,
+            "spend_bias": self.spend_bias, "avoid_f1": self.avoid_f1, "shard_start": self.shard_start, "dense_outputs": self.dense_outputs, "nu6_3_late": self.nu6_3_late,
+            "late_pool": self.late_pool.map(|(p, k)| format!("{}@+{k}", p.name())),
         })
     }
 }
@@ -328,7 +351,15 @@ impl Hist {
             };
             let mut used: Vec<crate::sim::NoteKey> =
                 built.iter().flat_map(|b| b.spends.clone()).collect();
-            let pools = self.cfg.pools.clone();
+            let base = self.sim.base_height();
+            let mut pools: Vec<Pool> = self.cfg.pools.iter().copied().filter(|p| {
+                let late = self.cfg.late_pool.map_or(false, |(lp, k)| lp == *p && height < base + k);
+                let pre_nu63 = *p == Pool::Ironwood && self.cfg.nu6_3_activation().map_or(true, |a| height < a);
+                !late && !pre_nu63
+            }).collect();
+            if pools.is_empty() {
+                pools = vec![Pool::Sapling];
+            }
             for _ in 0..n_tx {
                 let mut p = self.sim.random_tx_plan(&pools, self.cfg.spend_bias, &used);
                 for _ in 0..self.cfg.dense_outputs {
@@ -603,6 +634,16 @@ impl Hist {
                                 break;
                             }
                             d = self.rng.gen_range(1..=maxd.min(12));
+                        }
+                    }
+                    // a rewind to just below the first-ever commitment of a late-starting pool
+                    // (the tree of that pool is empty at the target checkpoint)
+                    if let Some((lp, _)) = self.cfg.late_pool {
+                        let first = self.sim.blocks.values().find(|b| !b.leaves[lp.idx()].is_empty()).map(|b| b.height);
+                        if let Some(f) = first {
+                            if f > self.sim.base_height() + 1 && tip > f && tip - f < 95 && self.rng.gen_bool(0.6) {
+                                d = tip - f + 1 + self.rng.gen_range(0..2).min(f - self.sim.base_height() - 2);
+                            }
                         }
                     }
                     // the wallet can only truncate to a height at or above its oldest checkpoint;
